@@ -61,6 +61,9 @@ ASSUMPTIONS = [
     "(sorted lists m.py before m.pyi, reversed the other way round) and, for -stubs packages, by swapping the two search paths",
     "wildcard-provided members come from p/_impl.py (no __all__, public names, functions/attributes/flat classes) and are disjoint from the "
     "module's own names; the alias created by the expansion is expected resolved (that is the expansion's doing, not the merger's)",
+    "explicit re-exports over 2-3 alias hops (module -> _api [-> _api2] -> _core) are generated only for modules whose stubs are merged after "
+    "the whole package is loaded; for them `resolved` is not judged (the merger dereferences the chain by design: listed finding), the object "
+    "at the end of the chain must be merged like any runtime member whenever the stubs define that name",
     "internal aliases point to functions of p/other.py (loaded as part of the package); external aliases to a package that is not on the search path",
 ]
 BUDGET_S = {"quick": 70.0, "thorough": 1100.0}
@@ -99,12 +102,14 @@ def layout_for(case) -> tuple[dict, dict]:
     wild = case.get("wild") if pair.get("W") and placement != "top-module" else None
     wild_primary = wild == "all" or (wild == "load-package" and placement in ("package", "stubs-pkg"))
     wild_deep = wild == "all" or (wild == "load-package" and placement == "stubs-pkg")
-    r = gp.render_module(pair["R"], "R", TOP, wildcard=wild_primary)
-    r_deep = gp.render_module(pair["R"], "R", TOP, wildcard=wild_deep)
+    imports = gp.runtime_import_lines(pair, TOP)
+    r = gp.render_module(pair["R"], "R", TOP, wildcard=imports if wild_primary else False)
+    r_deep = gp.render_module(pair["R"], "R", TOP, wildcard=imports if wild_deep else False)
     s = gp.render_module(pair["S"], "S", TOP)
     common = {f"{gp.OTHER}.py": gp.render_other()}
     if wild_primary or wild_deep:
         common[f"{gp.IMPL}.py"] = gp.render_impl(pair, TOP)
+        common.update(gp.render_reexports(pair, TOP))
     opts = {"deep": True, "wild_primary": wild_primary, "wild_deep": wild_deep}
     # every package placement also holds the same pair two levels down: p/sub/deep.py + deep.pyi (for the -stubs
     # placement the stubs are p-stubs/sub/deep.pyi below a stub-only sub-package p-stubs/sub/__init__.pyi)
@@ -148,7 +153,7 @@ def _observe(top, target: str | None, with_deep: bool) -> dict:
     if mod is None or mod.is_alias or mod.kind.value != "module":
         obs = dict(MISSING)
     else:
-        obs = gp.observe(mod, skip=(gp.OTHER, gp.IMPL, "m", "s", "sub") if target is None else ())
+        obs = gp.observe(mod, skip=(gp.OTHER, gp.IMPL, gp.API, gp.API2, gp.CORE, "m", "s", "sub") if target is None else ())
         obs["file"] = _suffix(mod)
     if with_deep:
         d = find(top, "sub.deep")
